@@ -178,7 +178,7 @@ pub fn literal_pool(kind: u16) -> &'static [&'static str] {
         K_BYTES => &[
             "\"\"", "\"a\"", "\"abc\"", "\"%ba\"", "\"12\"", "\"-7\"", "\"héllo wörld\"", "\"2021-01-01T00:00:00Z\"", "\"{\\\"a\\\":1}\"",
             "\"a=b c=d\"", "\"1.2.3.4\"", "\"::1\"", "\"a,b,c\"", "\"%Y-%m-%d\"", "\"x y z\"", "\"0x1f\"", "\"utf-8\"", "\"SHA-256\"",
-            "\"aes128\"", "\"seconds\"", "\"16 bytes of key!\"", "\"thirty-two bytes key for pfx use\"", "\".\"", "\"0\"",
+            "\"aes128\"", "\"seconds\"", "\"nanoseconds\"", "\"milliseconds\"", "\"microseconds\"", "\"16 bytes of key!\"", "\"thirty-two bytes key for pfx use\"", "\".\"", "\"0\"",
         ],
         K_INTEGER => &[
             "0", "1", "-1", "2", "3", "10", "16", "36", "37", "64", "255", "256", "65536", "2147483647", "-2147483648", "4294967296",
